@@ -315,7 +315,7 @@ pub fn run_case(ctx: &mut Ctx, idx: u64) {
 }
 
 pub fn run(ctx: &mut Ctx) {
-    let n_cases = pool::n_corpus() + ctx.pick(200, 9000);
+    let n_cases = pool::n_corpus() + ctx.pick(1200, 9000);
     // corpus entries are visited under several vocabularies: idx space = rounds x pool
     let rounds = ctx.pick(2, 6);
     for r in 0..rounds {
